@@ -224,9 +224,9 @@ def cases(tier, seed):
     for tr in ((1.05, 1.1, 1.2, 1.35, 1.5, 1.75, 2.0, 2.4, 3.0) if thorough else (1.05, 1.5, 3.0)):
         out.append({"kind": "sweep", "tr": tr, "lo": 0.05, "hi": 30.0, "n": 600 if thorough else 300, "pc": 0})
     hts = np.arange(1.2, 3.0001, 0.01 if thorough else 0.05)
-    hps = np.concatenate([[1e-3, 5e-3, 0.01, 0.02, 0.05, 0.1, 0.2, 0.35],  # the low end of the common range (0, 24]
+    hps = np.concatenate([[1e-8, 1e-6, 1e-5, 3e-5, 1e-4, 1e-3, 5e-3, 0.01, 0.02, 0.05, 0.1, 0.2, 0.35],  # the low end of (0, 24]
                           np.arange(0.1 if thorough else 0.5, 24.0001, 0.1 if thorough else 0.5)])
-    out += [{"kind": "hy", "tr": float(round(t, 4)), "pr": float(round(p, 4))} for t, p in itertools.product(hts, hps)]
+    out += [{"kind": "hy", "tr": float(round(t, 4)), "pr": float(f"{p:.6g}")} for t, p in itertools.product(hts, hps)]
     return out
 
 
